@@ -923,8 +923,8 @@ def extraction_rules(repo, rep, m):
                 fn = e.func.id if isinstance(e.func, ast.Name) else (e.func.attr if isinstance(e.func, ast.Attribute) else '')
                 if fn in ('abs', 'float', 'fabs', 'absolute', 'array', 'asarray') and e.args:
                     return kind(e.args[0])
-                if fn == 'round' and isinstance(e.func, ast.Attribute) and not isinstance(e.func.value, ast.Name):
-                    # (expr).round(n)
+                if fn == 'round' and isinstance(e.func, ast.Attribute) and not (isinstance(e.func.value, ast.Name) and e.func.value.id not in state):
+                    # (expr).round(n) / tracked_name.round(n) - not np.round(x, n), handled below
                     k = kind(e.func.value)
                     if k == 'raw':
                         nd = e.args[0].value if e.args and isinstance(e.args[0], ast.Constant) else None
@@ -971,6 +971,9 @@ def extraction_rules(repo, rep, m):
                 return None
             if isinstance(e, ast.UnaryOp):
                 return kind(e.operand)
+            if isinstance(e, ast.Subscript):
+                # a masked selection of an array keeps its kind
+                return kind(e.value)
             return None
         strings = False
         for st in ast.walk(f.node):
@@ -1006,6 +1009,13 @@ def extraction_rules(repo, rep, m):
         elif ok:
             n += 1
             rep.holds('R-DIGITS', key, where(f, ok[0][0]), '%s extracts its fields from a value rounded to <= 9 decimals after scaling' % name)
+        else:
+            # a function that does cut fields (divmod / floor / // / %) of something the rule could not classify is not passed over silently
+            cuts = [x for x in ast.walk(f.node) if (isinstance(x, ast.Call) and getattr(x.func, 'id', getattr(x.func, 'attr', '')) in ('divmod', 'floor', 'trunc'))
+                    or (isinstance(x, ast.BinOp) and isinstance(x.op, (ast.FloorDiv, ast.Mod)) and not isinstance(x.left, ast.Constant))]
+            if cuts:
+                n += 1
+                rep.undecided('R-DIGITS', key, where(f, cuts[0]), '%s cuts fields with `%s` but the operand could not be traced back to the HP argument' % (name, stmt_text(cuts[0])[:60]))
     return n
 
 
